@@ -997,6 +997,42 @@ def gen_sequence(rng, n_ops, flush_every, epr=True, max_depth=4):
     return renumber_arrays(prog)
 
 
+def gen_handover(rng):
+    """register outcomes handed from one subroutine to later ones: measurements into registers in
+    every block, later blocks use outcomes of earlier blocks (and their own) as condition and add
+    operands.  -> (prog, script)"""
+    prog = [["newarr", 0, 3, [0, 0, 0]], ["newq", 0]]
+    regs, n_meas = [], 0
+    nblocks = rng.randint(2, 4)
+    for b in range(nblocks):
+        own = []
+        for _ in range(rng.randint(1, 3)):
+            if rng.random() < 0.4:
+                prog.append(["gate", rng.choice(GATES1), 0])
+            r = len(regs) + len(own)
+            prog.append(["measreg", 0, 1, r])
+            own.append(r)
+            n_meas += 1
+            if rng.random() < 0.3:
+                prog.append(["measfut", 0, 1, 0, ["c", 2]])
+                n_meas += 1
+        pool = regs + own
+        for _ in range(rng.randint(1, 3)):
+            x = ["reg", rng.choice(pool)]
+            k = rng.random()
+            if k < 0.45:
+                c = rng.choice(CONDS)
+                y = None if c in ("ez", "nz") else rng.choice([["int", rng.randint(0, 1)], ["reg", rng.choice(pool)]])
+                prog.append(["if", c, rng.randint(0, 1), x, y, [["futadd", 0, ["c", 0], ["int", rng.randint(1, 5)], None]]])
+            elif k < 0.8:
+                prog.append(["futadd", 0, ["c", 1], x, rng.choice([None, None, 3])])
+            else:
+                prog.append(["regadd", rng.choice(own), x, None])
+        regs += own
+        prog.append(["flush"])
+    return prog, [rng.randint(0, 1) for _ in range(n_meas)]
+
+
 def nest(k, inner, kinds, rng):
     """k open operations around `inner` (C14: agreement on failure when the nesting is too deep)"""
     s = inner
@@ -1111,6 +1147,38 @@ def allowed_cuts(stmts):
         defined = set().union(*[d for d, _ in info[: i + 1]])
         used_later = set().union(*[u for _, u in info[i + 1:]])
         if not (defined & used_later):
+            ok.append(i)
+    return ok
+
+
+def reg_targets(s, acc):
+    """register futures that s adds to (rf.add(..)) anywhere inside"""
+    if s[0] == "regadd":
+        acc.add(s[1])
+    for b in bodies(s):
+        for t in b:
+            reg_targets(t, acc)
+
+
+def stale_cuts(stmts):
+    """positions i (flush after statement i) that DO separate the measurement of a register
+    outcome from a later use of it as an operand (condition, add operand), and from no later
+    rf.add(..) on it: the later subroutine must see the value the earlier one computed, although
+    the M registers are handed out afresh (outside Sdk.Lower: what is compiled depends on an
+    earlier run; covered by the behavioural oracle only)"""
+    info, targets = [], []
+    for s in stmts:
+        d, u, t = set(), set(), set()
+        reg_defs_uses(s, d, u)
+        reg_targets(s, t)
+        info.append(({x for x in d if not isinstance(x, tuple)}, {x for x in u if not isinstance(x, tuple)} - t))
+        targets.append(t)
+    ok = []
+    for i in range(len(stmts) - 1):
+        defined = set().union(*[d for d, _ in info[: i + 1]])
+        used_later = set().union(*[u for _, u in info[i + 1:]])
+        added_later = set().union(*targets[i + 1:])
+        if (defined & used_later) and not (defined & added_later):
             ok.append(i)
     return ok
 
